@@ -45,7 +45,7 @@ class Gen:
     """layout: 0 canonical, 1 mild, 2 wild.  crlf: line endings.  profile: weights of item kinds."""
 
     def __init__(self, g, layout=1, crlf=False, p_doc=0.5, max_depth=3, max_items=6, malformed=0.0,
-                 weights=None, doc_lines=None, idents=None, lg=None, doc_blocks=None):
+                 weights=None, doc_lines=None, idents=None, lg=None, doc_blocks=None, p_gap=0.12):
         # g decides the module's content (its token sequence); lg decides only the layout, so the same content seed
         # with different layout seeds yields layout variants of one module
         self.g = g; self.lg = lg if lg is not None else g; self.layout = layout; self.crlf = crlf; self.p_doc = p_doc; self.max_depth = max_depth
@@ -53,6 +53,7 @@ class Gen:
         self.weights = weights or {}
         self.doc_lines = doc_lines or DOC_LINES
         self.doc_blocks = doc_blocks
+        self.p_gap = p_gap
         self.idents = idents or IDENTS
         self.n_items = 0
 
@@ -171,7 +172,16 @@ class Gen:
         if not open_suffix and self.doc_blocks is None and g.random() < 0.08:
             leader = False
             lines = [g.choice(LEADERLESS_LINES) for _ in range(g.randint(1, 3))]
-        if not leader: ind = ''
+        bare_indented = False
+        if leader and not open_suffix and self.doc_blocks is not None and g.random() < 0.2:
+            # a leaderless block that is itself indented: body lines are plain text after the block's indentation; the optional
+            # single blank after the (absent) leader is still removed, so relative indentation shrinks by one column
+            leader = False; bare_indented = True
+            lines = [l for l in lines if not l[:1] in ('#', '[', ']')]
+        if bare_indented:
+            ind = lg.choice(['    ', '  ', '\t', '        '])
+            lines = [ind + l for l in lines]
+        elif not leader: ind = ''
         elif self.layout == 0: ind = ' ' * indent
         else: ind = lg.choice(['', ' ' * indent, '  ', '\t', '\t ', '      ', '        ' + ' ' * indent])
         pre = self.sep_cmd(0, first=first)
@@ -179,7 +189,9 @@ class Gen:
         if pre and pre[-1][0] in ('s', 't'): pre = pre[:-1]
         if not first and not (pre and pre[-1][0] in ('n', 'rn', 'lc')): pre = pre + [self.nl()]
         if first and pre and pre[-1][0] not in ('n', 'rn', 'lc'): pre = pre + [self.nl()]
-        return dict(pre=pre, ind=ind, open=open_suffix, lines=lines, leader=leader, crlf=self.crlf)
+        d = dict(pre=pre, ind=ind, open=open_suffix, lines=lines, leader=leader, crlf=self.crlf)
+        if bare_indented: d['bare_indented'] = True
+        return d
 
     # ---- items ------------------------------------------------------------------------------------------
     def ident(self): return self.g.choice(self.idents) + str(self.g.randint(0, 99))
@@ -199,7 +211,11 @@ class Gen:
         g = self.g; out = []
         n = g.randint(0, self.max_items if depth == 0 else max(1, self.max_items // 2))
         for j in range(n):
-            out.append(self.item(self.pick_kind(depth, in_class, in_test), depth, in_class, in_test, first and j == 0))
+            it = self.item(self.pick_kind(depth, in_class, in_test), depth, in_class, in_test, first and j == 0)
+            if isinstance(it, dict) and it['k'] == 'decl' and g.random() < self.p_gap:
+                out += self.split_decl(it, depth, in_class)
+            else:
+                out.append(it)
         # a dangling doccomment must be followed by another doccomment or the end of the enclosing list's text:
         # keep it well-formed by giving the next item a doccomment, or by moving it to the very end of the module
         fixed = []
@@ -213,6 +229,16 @@ class Gen:
                     self._after_doc(nxt)
             fixed.insert(0, it)
         return fixed
+
+    def split_decl(self, it, depth, in_class):
+        """a member/test declaration whose implementing definition does not follow immediately: other (non-definition,
+        non-declaration) commands sit in between.  Expressed with the existing item kinds: cmd(decl), cmd…, block(impl)."""
+        g = self.g
+        gap = []
+        for _ in range(g.randint(1, 2)):
+            k = g.choice(['set', 'option', 'generic', 'add_test', 'cpa'] + (['attr', 'attr'] if in_class else []))
+            gap.append(self.item(k, depth, in_class, False, False))
+        return [dict(k='cmd', doc=it['doc'], call=it['decl'])] + gap + [dict(k='block', doc=None, open=it['impl'], body=it['body'], close=it['close'])]
 
     def _after_doc(self, it):
         c = it.get('call') or it.get('open') or it.get('decl')
@@ -339,6 +365,12 @@ def cname(call): return call['name'].lower()
 def doc_text(d):
     """the text the doccomment must contribute: body lines, then the empty line the closing delimiter leaves"""
     if d is None: return ''
+    if d.get('bare_indented'):
+        out = []
+        for l in d['lines']:
+            t = l[len(d['ind']):]
+            out.append(t[1:] if t[:1] == ' ' else t)
+        return '\n'.join(out + [''])
     return '\n'.join(d['lines'] + [''])
 
 
@@ -365,8 +397,22 @@ def well_formed(m):
     """the hypotheses of the structural theorems: balanced blocks by construction, valid arities, declarations inside
     the right context, no K2 name; returns (ok, reason)"""
     def rec(items, in_class):
+        pending = None       # a declaration written as a plain command, waiting for its definition
         for it in items:
             k = it['k']
+            if pending is not None:
+                if k == 'block' and cname(it['open']) in ('function', 'macro') and it.get('doc') is None:
+                    if len(singles(it['open'])) < 1: return 'impl arity'
+                    if cname(it['close']) not in ('endfunction', 'endmacro'): return 'closer'
+                    r = rec(it['body'], False)
+                    if r: return r
+                    pending = None; continue
+                if k != 'cmd' or cname(it['call']) in DECLS: return 'declaration not followed by its definition'
+            if k == 'cmd' and cname(it['call']) in DECLS:
+                n = cname(it['call']); s = singles(it['call'])
+                if n in ('cpp_member', 'cpp_constructor') and (len(s) < 2 or not in_class): return 'member'
+                if n in ('ct_add_test', 'ct_add_section') and (len(s) < 2 or s[-1] == 'NAME' or s.count('NAME') != 1): return 'test arity'
+                pending = it; continue
             if k == 'cmd':
                 n = cname(it['call']); s = singles(it['call'])
                 if n in STRUCT_OPEN or n in STRUCT_OPEN.values() or n in DECLS: return 'structural name as single command: ' + n
@@ -390,6 +436,7 @@ def well_formed(m):
                 if len(singles(it['impl'])) < 1: return 'impl arity'
                 r = rec(it['body'], False)
                 if r: return r
+        if pending is not None: return 'declaration not followed by its definition'
         return None
     r = rec(m['items'], False)
     return (r is None, r)
@@ -422,10 +469,37 @@ def spec_entries(m, cfg):
                     params=[strip('fn' if kind == 'function' else 'macro', p) for p in s[1:]],
                     kw=(trigger in doc_text(d) if documented else trigger in '') or cpa_direct(body), doc=doc_text(d) if documented else '')
 
+    def decl_entry(dc, d, im, cls):
+        """the declaration's own contribution; returns True if it claims the implementing definition"""
+        n = cname(dc); s = singles(dc); ik = cname(im); isg = singles(im); documented = d is not None
+        if n in ('ct_add_test', 'ct_add_section'):
+            if documented or incl[n]:
+                i = s.index('NAME')
+                out.append(dict(t='cttest' if n == 'ct_add_test' else 'section', name=s[i + 1], doc=doc_text(d),
+                                ef='EXPECTFAIL' in s, params=isg[2:], macro=ik == 'macro'))
+                return True
+            return False
+        if isinstance(cls, dict) and (documented or incl[n]):
+            (cls['members'] if n == 'cpp_member' else cls['ctors']).append(
+                dict(name=s[0], doc=doc_text(d), pc=s[1], types=s[2:], params=[strip('member', p) for p in isg][2:],
+                     macro=ik == 'macro', ctor=n == 'cpp_constructor'))
+            return True
+        return False
+
     def rec(items, cls):
-        for it in items:
+        pending = None       # None: nothing pending; 'claimed' / 'hidden': a declaration written as a plain command came before
+        for idx, it in enumerate(items):
             k = it['k']; d = it.get('doc'); documented = d is not None
             if k == 'dangling': continue
+            if pending is not None and k == 'block' and cname(it['open']) in ('function', 'macro'):
+                was = pending; pending = None
+                if was == 'hidden' and incl[cname(it['open'])]: out.append(fn_entry(cname(it['open']), it['open'], None, it['body'], False))
+                rec(it['body'], cls); continue
+            if k == 'cmd' and cname(it['call']) in DECLS:
+                j = idx + 1      # the implementing definition further down this list
+                while j < len(items) and not (items[j]['k'] == 'block' and cname(items[j]['open']) in ('function', 'macro')): j += 1
+                pending = 'claimed' if decl_entry(it['call'], d, items[j]['open'], cls) else 'hidden'
+                continue
             if k == 'cmd':
                 c = it['call']; n = cname(c); s = singles(c)
                 if n == 'set':
@@ -464,24 +538,10 @@ def spec_entries(m, cfg):
                     if documented: out.append(dict(t='gen', name=n, doc=doc_text(d), params=all_args(o)))
                     rec(it['body'], cls)
             elif k == 'decl':
-                dc = it['decl']; n = cname(dc); s = singles(dc); im = it['impl']; ik = cname(im); isg = singles(im)
-                if n in ('ct_add_test', 'ct_add_section'):
-                    if documented or incl[n]:
-                        i = s.index('NAME')
-                        out.append(dict(t='cttest' if n == 'ct_add_test' else 'section', name=s[i + 1], doc=doc_text(d),
-                                        ef='EXPECTFAIL' in s, params=isg[2:], macro=ik == 'macro'))
-                    elif incl[ik]:
-                        out.append(fn_entry(ik, im, None, it['body'], False))
-                    rec(it['body'], cls)
-                else:
-                    shown = isinstance(cls, dict) and (documented or incl[n])
-                    if shown:
-                        (cls['members'] if n == 'cpp_member' else cls['ctors']).append(
-                            dict(name=s[0], doc=doc_text(d), pc=s[1], types=s[2:], params=[strip('member', p) for p in isg][2:],
-                                 macro=ik == 'macro', ctor=n == 'cpp_constructor'))
-                    elif incl[ik]:
-                        out.append(fn_entry(ik, im, None, it['body'], False))
-                    rec(it['body'], cls)
+                im = it['impl']
+                if not decl_entry(it['decl'], d, im, cls) and incl[cname(im)]:
+                    out.append(fn_entry(cname(im), im, None, it['body'], False))
+                rec(it['body'], cls)
 
     rec(m['items'], None)
     head = []
